@@ -30,12 +30,12 @@ var resolveImports = []string{"Resolve.Op", "Resolve.Process", "Corr.Resolve"}
 
 // stateKey renders every state field except the operation lists.
 func stateKey(o world.Outcome) string {
-	return fmt.Sprintf("err=%s panic=%v doc=%v/%v upd=%d rec=%d deact=%v last=(%d,%d) created=%d updated=%d vid=%d canon=%d origin=%d",
-		o.Err, o.Panic != "", o.HasDoc, o.Doc, o.Upd, o.Rec, o.Deact, o.LastT, o.LastN, o.Created, o.Updated, o.VID, o.Canon, o.Origin)
+	return fmt.Sprintf("err=%v panic=%v doc=%v/%v upd=%d rec=%d deact=%v last=(%d,%d) created=%d updated=%d vid=%d canon=%d origin=%d",
+		o.Err != "", o.Panic != "", o.HasDoc, o.Doc, o.Upd, o.Rec, o.Deact, o.LastT, o.LastN, o.Created, o.Updated, o.VID, o.Canon, o.Origin)
 }
 
 func coreKey(o world.Outcome) string {
-	return fmt.Sprintf("err=%s panic=%v doc=%v/%v upd=%d rec=%d deact=%v", o.Err, o.Panic != "", o.HasDoc, o.Doc, o.Upd, o.Rec, o.Deact)
+	return fmt.Sprintf("err=%v panic=%v doc=%v/%v upd=%d rec=%d deact=%v", o.Err != "", o.Panic != "", o.HasDoc, o.Doc, o.Upd, o.Rec, o.Deact)
 }
 
 func countLetters(r *out.Run, evs []world.Event) {
@@ -416,8 +416,11 @@ func runC06(c *ctx) error {
 			r.Add(g, hv.CaseGallina(env.tb, env.md, ocV), desc, labels(evs)+fmt.Sprint("t", t, orderKey(pubS)), true)
 			kv, kt := stateKey(ocV), stateKey(ocT)
 			if len(tp)+len(tu) == 0 {
-				kt = "err=ENoOpsForTime" // empty truncated store: the versioned call must fail too
-				kv = "err=" + ocV.Err
+				kt = "err" // empty truncated store: the versioned call must fail too (whatever the wording)
+				kv = "ok"
+				if ocV.Err != "" {
+					kv = "err"
+				}
 			}
 			if kv != kt {
 				r.Direct = append(r.Direct, out.Direct{Oracle: "version_time_is_truncation", What: fmt.Sprintf("T=%d filtered: %s ; truncated: %s", t, kv, kt), Case: desc})
@@ -450,7 +453,7 @@ func runC06(c *ctx) error {
 			r.Count("cut", "id:"+outcomeBucket(ocV))
 			r.Add(g, hv.CaseGallina(env.tb, env.md, ocV), desc, labels(evs)+fmt.Sprint("v", vid, orderKey(pubS)), true)
 			if k == len(sorted) {
-				if ocV.Err != "EBadVersionId" {
+				if ocV.Err == "" {
 					r.Direct = append(r.Direct, out.Direct{Oracle: "unknown_version_id_is_error", What: stateKey(ocV), Case: desc})
 				}
 				continue
@@ -484,7 +487,7 @@ func runC06(c *ctx) error {
 				desc["version_id_raw"] = raw
 				r.Count("cut", "near-miss-id:"+outcomeBucket(ocV))
 				r.Add(g, hv.CaseGallina(env.tb, env.md, ocV), desc, labels(evs)+fmt.Sprint("raw", raw, orderKey(pubS)), true)
-				if ocV.Err != "EBadVersionId" {
+				if ocV.Err == "" {
 					r.Direct = append(r.Direct, out.Direct{Oracle: "unknown_version_id_is_error", What: raw + ": " + stateKey(ocV), Case: desc})
 				}
 			}
